@@ -6,10 +6,12 @@ package simhook
 
 import (
 	"fmt"
+	"iter"
 	"os"
 	"reflect"
 	"sort"
 	"strconv"
+	"strings"
 	"sync"
 	"time"
 )
@@ -110,20 +112,89 @@ func Keys[K comparable, V any](m map[K]V, site string) []K {
 	return keys
 }
 
-// canonical sorts keys when their type has a process-independent order.
+// canonical sorts keys when their type has a process-independent order:
+// scalars and composites of scalars by their printed value; any other key type
+// (pointers, interfaces) when every key is a fmt.Stringer and the strings are
+// pairwise different (go/types objects, packages and types are: their String
+// methods render names and import paths, never addresses).
 func canonical[K comparable](keys []K) bool {
 	var zero K
 	t := reflect.TypeOf(zero)
-	if t == nil {
-		return false
+	if t != nil && orderable(t) {
+		sort.Slice(keys, func(i, j int) bool {
+			return fmt.Sprintf("%#v", keys[i]) < fmt.Sprintf("%#v", keys[j])
+		})
+		return true
 	}
-	if !orderable(t) {
-		return false
+	strs := make(map[any]string, len(keys))
+	seen := make(map[string]bool, len(keys))
+	for _, k := range keys {
+		st, ok := any(k).(fmt.Stringer)
+		if !ok {
+			return false
+		}
+		str, ok := safeString(st)
+		if !ok || seen[str] || strings.Contains(str, "0x") {
+			return false
+		}
+		seen[str] = true
+		strs[any(k)] = str
 	}
-	sort.Slice(keys, func(i, j int) bool {
-		return fmt.Sprintf("%#v", keys[i]) < fmt.Sprintf("%#v", keys[j])
-	})
+	sort.Slice(keys, func(i, j int) bool { return strs[any(keys[i])] < strs[any(keys[j])] })
 	return true
+}
+
+func safeString(s fmt.Stringer) (str string, ok bool) {
+	defer func() {
+		if recover() != nil {
+			ok = false
+		}
+	}()
+	return reflect.TypeOf(s).String() + ":" + s.String(), true
+}
+
+// MapsKeys, MapsValues and MapsAll stand in for the iterators of package maps
+// (whose order is a map's iteration order).
+func MapsKeys[M ~map[K]V, K comparable, V any](m M) iter.Seq[K] {
+	return func(yield func(K) bool) {
+		for _, k := range Keys(map[K]V(m), "maps.Keys") {
+			if _, ok := m[k]; ok && !yield(k) {
+				return
+			}
+		}
+	}
+}
+
+func MapsValues[M ~map[K]V, K comparable, V any](m M) iter.Seq[V] {
+	return func(yield func(V) bool) {
+		for _, k := range Keys(map[K]V(m), "maps.Values") {
+			if v, ok := m[k]; ok && !yield(v) {
+				return
+			}
+		}
+	}
+}
+
+func MapsAll[M ~map[K]V, K comparable, V any](m M) iter.Seq2[K, V] {
+	return func(yield func(K, V) bool) {
+		for _, k := range Keys(map[K]V(m), "maps.All") {
+			if v, ok := m[k]; ok && !yield(k, v) {
+				return
+			}
+		}
+	}
+}
+
+// XKeys and XValues stand in for golang.org/x/exp/maps.Keys and Values, which
+// return slices in iteration order.
+func XKeys[M ~map[K]V, K comparable, V any](m M) []K { return Keys(map[K]V(m), "x/exp/maps.Keys") }
+
+func XValues[M ~map[K]V, K comparable, V any](m M) []V {
+	vs := make([]V, 0, len(m))
+	for _, k := range Keys(map[K]V(m), "x/exp/maps.Values") {
+		vs = append(vs, m[k])
+	}
+	return vs
 }
 
 func orderable(t reflect.Type) bool {
